@@ -169,9 +169,9 @@ def _prepare(op, model, scratch):
         g = _points(model, rng, 4)
         x = g[:, dim].copy()
         if is_t:
-            given = np.delete(g[:2], dim, axis=1)
+            given = np.delete(g[:1], dim, axis=1)
             given = given[:, 0].copy() if nd == 2 else given
-            return (lambda a: model.conditional_cdf(a["x"], dim, a["given"], random_state=op["seed"])), {"x": x[:2].copy(), "given": given}, True
+            return (lambda a: model.conditional_cdf(a["x"], dim, a["given"], random_state=op["seed"])), {"x": x[:1].copy(), "given": given}, True
         return (lambda a: model.conditional_cdf(a["x"], dim, a["given"])), {"x": x, "given": g}, True
     if name == "cond_icdf":
         dim = int(op.get("dim", nd - 1))
@@ -579,7 +579,7 @@ T_SPECS = [
 
 def _scenarios(rng, tier):
     scen = []
-    n_hist = {"quick": 1, "thorough": 6}[tier]
+    n_hist = {"quick": 1, "thorough": 4}[tier]
     subjects = []
     for s in STRUCTS_2D + STRUCTS_3D:
         for _ in range(n_hist):
